@@ -326,11 +326,11 @@ theorem lpCore_obj (eps : Rat) (rows : List Row) (artRows : List Bool) (isArt : 
       refine ⟨by simp [h2.len], ?_, ?_⟩
       · intro i hi
         have : (s2.1.set rows.length (phase2Obj s2.1 s2.2 n rows.length width)).getD i [] = s2.1.getD i [] := by
-          simp [List.getD_eq_getElem?_getD, List.getElem?_set, Nat.ne_of_gt hi]
+          simp [List.getD_eq_getElem?_getD, Nat.ne_of_gt hi]
         rw [this]; exact h2.rows i hi
       · have : (s2.1.set rows.length (phase2Obj s2.1 s2.2 n rows.length width)).getD rows.length []
             = phase2Obj s2.1 s2.2 n rows.length width := by
-          simp [List.getD_eq_getElem?_getD, List.getElem?_set, h2.len]
+          simp [List.getD_eq_getElem?_getD, h2.len]
         rw [this]; exact phase2Obj_aff rows width rows.length n s2.1 s2.2 h2.rows
     have h4 := simplexPhase_inv _ rows width rows.length eps nOrig (width - 1) simplexFuel
       (s2.1.set rows.length (phase2Obj s2.1 s2.2 n rows.length width), s2.2) h3
@@ -447,5 +447,34 @@ theorem masterLP_value_eq_dual (cols : List Pat) (d : List Nat) (eps : Rat) (o :
       cases h
       rw [dotQ_rangeMap _ _ _ rfl]
       exact (masterCore_rows cols d eps t b hc).2
+
+/-- `Σ_i duals_i · col[i]` for the duals read off the final tableau. -/
+def priceOf (t : Tab) (n m : Nat) (col : Pat) : Rat :=
+  rsum m fun i => tget t m (n + i) * ((col.getD i 0 : Nat) : Rat)
+
+/-- [S, partial] Dual side at a regular exit: if the final tableau passes the entering test (no
+enterable column with reduced cost below `−eps`, which is how `simplex_phase` normally ends and
+is decidable on the output), then every pool column outside the basis is priced at most
+`1 + eps` by the duals read off, and every dual whose surplus column is outside the basis is at
+least `−eps`. -/
+theorem masterCore_duals_eps_feasible (cols : List Pat) (d : List Nat) (eps : Rat) (t : Tab) (b : List Nat)
+    (h : masterCore cols d eps = some (t, b))
+    (hexit : findEnter t b (cols.length + d.length) d.length eps = none) :
+    (∀ j, j < cols.length → b.contains j = false → priceOf t cols.length d.length (cols.getD j []) ≤ 1 + eps) ∧
+    (∀ i, i < d.length → b.contains (cols.length + i) = false → -eps ≤ tget t d.length (cols.length + i)) := by
+  obtain ⟨hx, _⟩ := masterCore_rows cols d eps t b h
+  unfold findEnter at hexit
+  rw [List.find?_eq_none] at hexit
+  constructor
+  · intro j hj hb
+    have := hexit j (List.mem_range.2 (by omega))
+    simp only [hb, Bool.not_false, Bool.true_and, decide_eq_true_eq] at this
+    rw [hx j hj] at this
+    unfold priceOf
+    linarith [not_lt.1 this]
+  · intro i hi hb
+    have := hexit (cols.length + i) (List.mem_range.2 (by omega))
+    simp only [hb, Bool.not_false, Bool.true_and, decide_eq_true_eq] at this
+    exact not_lt.1 this
 
 end Solvor.Cut.Mirror
